@@ -17,6 +17,9 @@ JSXFREE = {
     'assign': 'let a, b; a = b = 1; a += 2; [a, b] = [b, a]; ({{ a }} = {{ a: 1 }});',
     'arrows': 'const f = () => 1, g = (a = () => 2) => {{ return a }}, k = async (x) => await x;',
     'ts': 'interface P {{ a: string }} type A = P | null; enum E {{ A, B }} declare const d: number; export function f<T>(x: T): T {{ return x }} namespace N {{ export const z = 1 }}',
+    'ts-merged': 'interface Id {{ id: string }} interface La {{ label: string }} interface P extends Id {{ size: number }} interface P extends La {{ color: string }} interface P {{ extra?: boolean }} export function d(p: P): string {{ return p.id + p.label }}',
+    'ts-decls': 'export interface Q<T> extends Array<T> {{ (x: T): void; new (x: T): Q<T>; readonly [k: string]: unknown; m?(): void }} type R = Q<number>["length"]; export type S = {{ [K in keyof R]?: R[K] }}; declare module "m" {{ export const v: number }} abstract class Ab {{ abstract f(): void; protected g?(): string }}',
+    'ts-scoped': 'function outer() {{ interface L extends Base {{ a: string }} interface L {{ b: number }} type T = L | null; interface Base {{ z: boolean }} return null as unknown as T }} interface Base {{ top: number }}',
     'comments': '/* @jsx h */\n// @jsx other\nconst a = 1; /** @jsxFrag F */ const b = 2;',
     'define-like': 'function defineComponent(o) {{ return o }} const C = defineComponent({{ name: "x" }});',
     'vue-import-no-call': 'import {{ defineComponent, ref }} from "vue"; const r = ref(1);',
@@ -40,7 +43,7 @@ def make_skeleton(spec):
     tsx = False
     if kind == 'jsxfree':
         src = JSXFREE[spec['name']]
-        tsx = spec['name'] in ('ts',)
+        tsx = spec['name'].startswith('ts')
         opts = {'optimize': 'sym', 'transform_on': 'sym', 'merge_props': 'sym', 'enable_object_slots': 'sym', 'resolve_type': 'sym'}
         sk = Skeleton('c09#jsxfree|%s|%s' % (spec['name'], spec.get('pragma')), src + '\n', [], opts, tsx=tsx, pragma=spec.get('pragma'), meta={'family': 'c09/jsxfree'})
     elif kind == 'fixture-output':
